@@ -477,6 +477,16 @@ func scenUncommittedConfig(e *engineA) error {
 		return conf.AddNonvoter(4, e.cl.addrOf(4), false)
 	})
 	e.sleepHB(0.5, 1)
+	// a second request, built on the configuration that is not committed yet
+	go e.cl.changeConfig(l, "second request over an uncommitted configuration", func(conf *raft.Config) error {
+		for id, nd := range conf.Nodes {
+			if nd.Voter && id != l.nid {
+				return conf.SetAction(id, raft.Demote)
+			}
+		}
+		return fmt.Errorf("skip")
+	})
+	e.sleepHB(0.3, 0.6)
 	if variant == 1 {
 		e.cl.takeSnapshot(l, 0)
 	}
